@@ -6,6 +6,7 @@ CONSTANTS
   MaxFixed = 2
   CovSpecial = "repaired"
   Menu <- MCMenu
+  BadOps = TRUE
   MaxOps = 8
 SPECIFICATION RC_Spec
 
